@@ -802,3 +802,92 @@ Lemma repaired_versions :
   | Err _ => False
   end.
 Proof. vm_compute. split; reflexivity. Qed.
+
+(* ------------------------------------------------------------------ "all byte strings": every
+   list of integers reduced mod 256 is a byte string, so the two main theorems hold without any
+   hypothesis on such lists *)
+Lemma all_bytes_mod256 (l : list Z) : all_bytes (map (fun z => z mod 256) l) = true.
+Proof.
+  induction l as [|z l IH]; [reflexivity|]. cbn [map all_bytes forallb].
+  fold (all_bytes (map (fun z => z mod 256) l)). rewrite IH.
+  pose proof (Z.mod_pos_bound z 256 ltac:(lia)). unfold is_byte.
+  destruct (Z.leb_spec 0 (z mod 256)); destruct (Z.ltb_spec (z mod 256) 256); try lia; reflexivity.
+Qed.
+
+Theorem construct_total_any : forall l : list Z,
+  elf_outcome (construct_model (map (fun z => z mod 256) l)).
+Proof. intros l. apply construct_total. apply all_bytes_mod256. Qed.
+
+Theorem battery_terminates_any : forall l : list Z,
+  fst (battery_model (map (fun z => z mod 256) l)) <> Err EFuel.
+Proof. intros l. apply battery_terminates. apply all_bytes_mod256. Qed.
+
+(* ------------------------------------------------------------------ counters: a cost logic.
+   ops = struct parses + string reads, the two counters the harness measures on the real code
+   (wrapped Construct.parse_stream / parse_cstring_from_stream). *)
+Definition ops (c : cnt) : Z := c_parses c + c_strs c.
+Definition cost {A} (m : M A) (k : Z) : Prop := forall c, ops (snd (m c)) <= ops c + k.
+
+Lemma cost_ret {A} (a : A) : cost (ret a) 0.
+Proof. intros c. cbn. lia. Qed.
+Lemma cost_fail {A} (e : err) : cost (@fail A e) 0.
+Proof. intros c. cbn. lia. Qed.
+Lemma cost_weaken {A} (m : M A) k k' : cost m k -> k <= k' -> cost m k'.
+Proof. intros H Hk c. specialize (H c). lia. Qed.
+Lemma cost_bind {A B} (m : M A) (f : A -> M B) k1 k2 :
+  0 <= k2 -> cost m k1 -> (forall a, cost (f a) k2) -> cost (mbind m f) (k1 + k2).
+Proof.
+  intros H0 Hm Hf c. unfold mbind. specialize (Hm c). destruct (m c) as [[a|e] c1]; cbn [snd] in *.
+  - specialize (Hf a c1). lia.
+  - lia.
+Qed.
+Lemma cost_if {A} (b : bool) (m1 m2 : M A) k : cost m1 k -> cost m2 k -> cost (if b then m1 else m2) k.
+Proof. destruct b; auto. Qed.
+
+Lemma cost_struct_parse_at legacy L binds bs pos : cost (struct_parse_at legacy L binds bs pos) 1.
+Proof.
+  intros c. unfold struct_parse_at. destruct (seek_error pos) as [t|].
+  - destruct ((t =? "OverflowError")%string && negb legacy); cbn; lia.
+  - destruct (decode_layout L _) as [[r t]|]; [destruct (strict_ok binds r)|]; cbn; unfold ops; cbn; lia.
+Qed.
+Lemma cost_cstring_at fuel bs pos : cost (cstring_at fuel bs pos) 1.
+Proof.
+  intros c. unfold cstring_at. destruct (seek_error pos); [cbn; unfold ops; cbn; lia|].
+  destruct (cstr_scan fuel (rest_at bs pos) 0) as [s n]. cbn. unfold ops. cbn. lia.
+Qed.
+
+Lemma cost_loop {St} (step : St -> M (St + St)) k :
+  0 <= k -> (forall s, cost (step s) k) -> forall fuel s, cost (loop fuel step s) (Z.of_nat fuel * k).
+Proof.
+  intros Hk Hs. induction fuel as [|f IH]; intros s; cbn [loop].
+  - apply cost_fail.
+  - replace (Z.of_nat (S f) * k) with (k + Z.of_nat f * k) by lia.
+    apply cost_bind; [nia|apply Hs|]. intros [s'|s']; [apply IH|].
+    eapply cost_weaken; [apply cost_ret|nia].
+Qed.
+
+Lemma cost_dynamic_tag b tag lk loff : cost (dynamic_tag b tag lk loff) 1.
+Proof.
+  unfold dynamic_tag. destruct (dict_get _ _) as [nm|]; [|eapply cost_weaken; [apply cost_ret|lia]].
+  apply cost_if; [|eapply cost_weaken; [apply cost_ret|lia]].
+  apply cost_if; [|eapply cost_weaken; [apply cost_fail|lia]].
+  replace 1 with (1 + 0) by lia. apply cost_bind; [lia|apply cost_cstring_at|]. intros; apply cost_ret.
+Qed.
+
+(* iter_tags is LINEAR in the file size: at most one Elf_Dyn parse and one string read per
+   iteration, at most |file| + 1 iterations *)
+Theorem iter_tags_linear b offset lk loff :
+  cost (iter_tags b offset lk loff) (2 * Z.of_nat (b_fuel b)).
+Proof.
+  unfold iter_tags. replace (2 * Z.of_nat (b_fuel b)) with (Z.of_nat (b_fuel b) * 2 + 0) by lia.
+  apply cost_bind; [lia| |intros; apply cost_ret].
+  apply cost_loop; [lia|]. intros n.
+  replace 2 with (1 + (1 + 0)) by lia.
+  apply cost_bind; [lia|apply cost_struct_parse_at|]. intros tag.
+  apply cost_bind; [lia|apply cost_dynamic_tag|]. intros _. apply cost_ret.
+Qed.
+
+Corollary iter_tags_linear_bytes b offset lk loff c :
+  bgood b ->
+  ops (snd (iter_tags b offset lk loff c)) <= ops c + 2 * (flen (bs_of b) + 1).
+Proof. intros Hg. pose proof (iter_tags_linear b offset lk loff c). rewrite (fuel_of b Hg) in H. exact H. Qed.
